@@ -1139,6 +1139,62 @@ func runScripted(r *mon.Run, sc scriptedCase) {
 	finish(r, w, cfg, [][]*dispatchRec{recs}, nil)
 }
 
+// runShutdownInBackoff: the forwarder is stopped while a body whose first attempt failed sleeps in its
+// (real-time, 0.25-0.75 s) back-off. "Abandoned only when the retry window is exhausted, each abandonment
+// counted once as dropped" has no exception for shutdown: with an unlimited window the body must still be
+// delivered (Run returns only after every request finished), and the counters must account for every body.
+func runShutdownInBackoff(r *mon.Run, sc scriptedCase) {
+	cfg := sc.Config
+	r.Case("shutdown-in-backoff %+v", sc)
+	script := sc.Scripts[0]
+	choose := func(b *bodyRec, rng *rand.Rand) []string { return script }
+	w, err := newWorld(r, cfg, choose)
+	if err != nil {
+		r.Inconclusive("setup:" + err.Error())
+		return
+	}
+	lx := statsd.VerifNewLexer(0)
+	var idc atomic.Int64
+	idc.Store(int64(cfg.Exec%1000)<<32 + 1<<29)
+	rng := r.Rand(fmt.Sprintf("exec%d-shutdown", cfg.Exec))
+	var recs []*dispatchRec
+	for d := 0; d < 1+rng.Intn(3); d++ {
+		mm, rec, err := buildMap(lx, rng, cfg, d, &idc, false, []string{""})
+		if err != nil {
+			r.Violation("generated-line-rejected", err.Error(), sc)
+			w.cancel()
+			return
+		}
+		w.hfh.DispatchMetricMap(w.ctx, mm)
+		rec.returned = r.Stamp()
+		recs = append(recs, rec)
+	}
+	go w.fc.Flush()
+	// the data body's first attempt has been answered (with a failure): its goroutine now sleeps in the back-off
+	inBackoff := mon.WaitUntil(60*time.Second, func() bool {
+		if w.up.inflight.Load() != 0 {
+			return false
+		}
+		w.up.mu.Lock()
+		defer w.up.mu.Unlock()
+		for _, b := range w.up.order {
+			if !b.Nop && len(b.Attempts) >= 1 && b.Attempts[len(b.Attempts)-1].End != 0 && !b.succeeded() {
+				return true
+			}
+		}
+		return false
+	})
+	if !inBackoff {
+		r.Inconclusive("shutdown-in-backoff:first-attempt-not-observed")
+		w.cancel()
+		return
+	}
+	r.Event("shutdowns_during_backoff", 1)
+	r.Eval(1)
+	r.Nontrivial(fmt.Sprintf("shutdown-in-backoff script%v slots%d", script, cfg.Slots))
+	finish(r, w, cfg, [][]*dispatchRec{recs}, nil) // cancels, waits for Run, then judges attempts, counters and ids
+}
+
 func markTenants(dn string, tags gostatsd.Tags, seen map[string]bool) {
 	for _, t := range tags {
 		if strings.HasPrefix(t, dn+":") {
@@ -1160,6 +1216,8 @@ func TestCheck(t *testing.T) {
 		var lc lambdaCase
 		if mon.ReplayCase(p, &lc) != nil && lc.Lambda {
 			runLambdaCase(r, lc)
+		} else if mon.ReplayCase(p, &sc) != nil && sc.Config.Mode == "shutdown" {
+			runShutdownInBackoff(r, sc)
 		} else if mon.ReplayCase(p, &sc) != nil && sc.Config.Mode == "scripted" {
 			runScripted(r, sc)
 		} else {
@@ -1238,6 +1296,15 @@ func TestCheck(t *testing.T) {
 		runScripted(r, sc)
 	}
 	r.Extra("scripted_cases_total", len(cases)/maxInt(1, shardsOf(r)))
+
+	// (2b) shutdown while a failed body sleeps in its back-off
+	shut := [][]string{{"500", "ok"}, {"conn", "ok"}, {"500", "conn", "ok"}, {"400", "ok"}}
+	for k := 0; k < r.Pick(4, 48); k++ {
+		if !r.Mine(k) {
+			continue
+		}
+		runShutdownInBackoff(r, scriptedCase{Config: config{Mode: "shutdown", Exec: 700000 + k, Slots: 1 + k%3, MaxRequests: 4, Merge: 1, WindowMS: 3600000, Faults: "scripted", Compress: k%2 == 1}, Scripts: [][]string{shut[k%len(shut)]}})
+	}
 
 	// (3) the forwarder as cmd/lambda-extension composes it with timer-driven flushing (real executable)
 	nLambda := r.Pick(4, 64)
